@@ -34,9 +34,9 @@ Section C15.
 Variable lit : string -> outcome litres.
 Variable re_search : string -> string -> outcome reres.
 Variable nstr : node -> string.
-Variable vstr : list rnode -> string.
-Variable kw_handler : bool -> keyword -> string -> rnode -> ctx -> gen rnode.
-Variable creator : list pseg -> nat -> rnode -> ctx -> gen rnode.
+Variable vstr : list rval -> string.
+Variable kw_handler : bool -> keyword -> string -> rval -> ctx -> gen rval.
+Variable creator : list pseg -> nat -> rval -> ctx -> gen rval.
 Hypothesis lit_total : forall s, exists r, lit s = Ok r /\ (forall c, r <> LCrash c).
 Hypothesis re_total : forall p s, exists r, re_search p s = Ok r.
 Hypothesis kw_ok : forall inv k ps v c, sres coords_or_list (kw_handler inv k ps v c).
